@@ -406,6 +406,37 @@ pub fn size_expr(e: &E) -> usize {
     }
 }
 
+/// A statement after which a following `else` would attach to an inner `if`.
+fn ends_open(s: &S) -> bool {
+    let body_open = |b: &Body| matches!(b, Body::Single(x) if ends_open(x));
+    match &s.k {
+        SK::If(_, _, None) => true,
+        SK::If(_, _, Some(e)) => body_open(e),
+        SK::While(_, b) | SK::For(_, _, _, b) => body_open(b),
+        _ => false,
+    }
+}
+
+/// The printed text of such a program would not be a rendering of the model (dangling else):
+/// `if (a) if (b) x; else y;` where the model attaches the else to the outer `if`.
+pub fn dangling_else(prog: &[S]) -> bool {
+    fn body(b: &Body) -> bool {
+        match b {
+            Body::Block(v) => dangling_else(v),
+            Body::Single(x) => dangling_else(std::slice::from_ref(x.as_ref())),
+        }
+    }
+    prog.iter().any(|s| match &s.k {
+        SK::If(_, t, e) => {
+            (e.is_some() && matches!(t, Body::Single(x) if ends_open(x))) || body(t) || e.as_ref().map(body).unwrap_or(false)
+        }
+        SK::While(_, b) | SK::For(_, _, _, b) => body(b),
+        SK::Gate(_, _, _, b) | SK::Def(_, _, _, b) => dangling_else(b),
+        SK::Switch(_, cs, d) => cs.iter().any(|c| dangling_else(&c.1)) || d.as_ref().map(|d| dangling_else(d)).unwrap_or(false),
+        _ => false,
+    })
+}
+
 /// Greedy shrink of a program while `fails` keeps returning true.
 pub fn shrink_program(prog: &[S], fails: &mut dyn FnMut(&[S]) -> bool, budget: usize) -> Vec<S> {
     let mut cur = prog.to_vec();
@@ -416,7 +447,7 @@ pub fn shrink_program(prog: &[S], fails: &mut dyn FnMut(&[S]) -> bool, budget: u
             if spent > budget {
                 break 'outer;
             }
-            if fails(&cand) {
+            if !dangling_else(&cand) && fails(&cand) {
                 cur = cand;
                 continue 'outer;
             }
